@@ -164,12 +164,14 @@ mutual
 `most_accurate_type` (`TableArith`, proved of the generated table: `table_arith`), then *every*
 expression built from operands of known type, calls that resolve to a row (with operands of any
 type as direct arguments), the operators of the operator table and `**` is translated — no
-`TypeError`, no assertion — and its type is again one `most_accurate_type` knows. -/
+`TypeError`, no assertion — and its type is again one `most_accurate_type` knows; a `not` (declared
+`bool` since ea7911a) is translated wherever the result type is not asked for (top, under a unary
+operator, argument of a call, operand of `**`) and its declared type is `bool`. -/
 theorem usable_in_arithmetic (c : Cfg) (hc : TableArith c = true) : ∀ e : PExpr, Accepted c e = true →
-    ∃ v, Tr c e v ∧ (assoc c.prio v.ty).isSome
+    ∃ v, Tr c e v ∧ (if boolTyped e = true then v.ty = "bool" else (assoc c.prio v.ty).isSome = true)
   | .leaf t ty, h => by
     simp only [Accepted] at h
-    exact ⟨_, Tr.leaf c t ty, h⟩
+    exact ⟨_, Tr.leaf c t ty, by simpa [boolTyped] using h⟩
   | .call f args, h => by
     simp only [Accepted, Bool.and_eq_true] at h
     obtain ⟨hargs, hf⟩ := h
@@ -183,7 +185,8 @@ theorem usable_in_arithmetic (c : Cfg) (hc : TableArith c = true) : ∀ e : PExp
         refine ⟨_, Tr.call hl hk, ?_⟩
         have hr := findKnown_mem hk
         simp only [TableArith, Bool.and_eq_true, List.all_eq_true] at hc
-        exact hc.1 r hr
+        have hk' : (assoc c.prio r.ret).isSome = true := hc.1 r hr
+        simpa [boolTyped] using hk'
   | .bin op l r, h => by
     simp only [Accepted, Bool.and_eq_true] at h
     obtain ⟨⟨hop, hl⟩, hr⟩ := h
@@ -192,8 +195,13 @@ theorem usable_in_arithmetic (c : Cfg) (hc : TableArith c = true) : ∀ e : PExp
     have hdbl : (assoc c.prio "double").isSome := by
       simp only [TableArith, Bool.and_eq_true] at hc
       exact hc.2
+    simp only [boolTyped, Bool.false_eq_true, if_false]
     cases hs : assoc c.binOps op with
     | some sym =>
+      simp only [hs, Option.isSome_some, Option.isNone_some, Bool.true_and, Bool.false_and, Bool.or_false,
+        Bool.and_eq_true, Bool.not_eq_true'] at hop
+      simp only [hop.1, Bool.false_eq_true, if_false] at hlt
+      simp only [hop.2, Bool.false_eq_true, if_false] at hrt
       obtain ⟨best, hb, hbest⟩ := bestType_ok hlt hrt
       refine ⟨_, Tr.bin hlv hrv hs hb, ?_⟩
       unfold binVal
@@ -202,7 +210,7 @@ theorem usable_in_arithmetic (c : Cfg) (hc : TableArith c = true) : ∀ e : PExp
       · simp only [hd, if_false]
         rcases hbest with rfl | rfl <;> assumption
     | none =>
-      simp only [hs, Option.isSome_none, Bool.false_or, beq_iff_eq] at hop
+      simp only [hs, Option.isSome_none, Option.isNone_none, Bool.false_and, Bool.false_or, Bool.true_and, beq_iff_eq] at hop
       subst hop
       exact ⟨_, Tr.pow hlv hrv hs, hdbl⟩
   | .un op e, h => by
@@ -211,7 +219,15 @@ theorem usable_in_arithmetic (c : Cfg) (hc : TableArith c = true) : ∀ e : PExp
     obtain ⟨v, hv, ht⟩ := usable_in_arithmetic c hc e he
     cases hs : assoc c.unOps op with
     | none => simp [hs] at hop
-    | some sym => exact ⟨_, Tr.un hv hs, ht⟩
+    | some sym =>
+      refine ⟨_, Tr.un hv hs, ?_⟩
+      by_cases hn : op = "Not"
+      · simp [boolTyped, unTy, hn]
+      · by_cases hb : boolTyped e = true
+        · simp only [hb, if_true] at ht
+          simp [boolTyped, unTy, hn, hb, ht]
+        · simp only [hb, Bool.false_eq_true, if_false] at ht
+          simp [boolTyped, unTy, hn, hb, ht]
 /-- (argument lists: operands of any type are allowed as direct arguments) -/
 theorem usable_args (c : Cfg) (hc : TableArith c = true) : ∀ es : List PExpr, AcceptedArgs c es = true →
     ∃ ts incs, TrList c es ts incs
@@ -301,8 +317,8 @@ theorem scoped_faithful (c : Cfg) (hc : CfgOK c = true) : ∀ e : PExpr, Scoped 
     obtain ⟨_, _, _, _, _, hNeg, hPos⟩ := cfgOK_ops hc
     simp only [arithUn, List.mem_cons, List.mem_nil_iff, or_false, decide_eq_true_eq] at hop
     rcases hop with rfl | rfl
-    · exact ⟨_, Tr.un hv1 hNeg, by simp [csym, psym, cUn, pUn, hv2], by simp [CExpr.ctype, hv3], hv4⟩
-    · exact ⟨_, Tr.un hv1 hPos, by simp [csym, psym, cUn, pUn, hv2], by simp [CExpr.ctype, hv3], hv4⟩
+    · exact ⟨_, Tr.un hv1 hNeg, by simp [csym, psym, cUn, pUn, hv2], by simp [CExpr.ctype, unTy, hv3], by simpa [unTy] using hv4⟩
+    · exact ⟨_, Tr.un hv1 hPos, by simp [csym, psym, cUn, pUn, hv2], by simp [CExpr.ctype, unTy, hv3], by simpa [unTy] using hv4⟩
 /-- (argument lists: meanings and C++ types of all arguments agree position by position) -/
 theorem scoped_args (c : Cfg) (hc : CfgOK c = true) : ∀ es : List PExpr, ScopedArgs c es = true →
     ∃ ts incs, TrList c es ts incs ∧ csyms ts = psyms es ∧ CExpr.ctypes ts = es.map (argTy c)
@@ -638,8 +654,14 @@ example : Documented Gen.readmeFunctions (.bin "Add" (.bin "Mult" (.call "sin" [
     Clean Gen.cfg (.bin "Add" (.bin "Mult" (.call "sin" [.leaf "x" "double"]) (.leaf "2" "int")) (.leaf "1" "int")) = true := by decide +kernel
 example : Documented Gen.readmeFunctions (.call "fmax" [.call "nan" [.leaf "\"\"" "string"], .call "abs" [.leaf "x" "double"]]) = true ∧
     Clean Gen.cfg (.call "fmax" [.call "nan" [.leaf "\"\"" "string"], .call "abs" [.leaf "x" "double"]]) = true := by decide +kernel
--- `Accepted` covers more than `Scoped`: float operands, `%`, `not`, ilogb
-example : Accepted Gen.cfg (.bin "Mod" (.call "ilogb" [.leaf "x" "float"]) (.un "Not" (.leaf "2" "int"))) = true := by
+-- `Accepted` covers more than `Scoped`: float operands, `%`, ilogb, `not` where no result type is asked for
+example : Accepted Gen.cfg (.bin "Mod" (.call "ilogb" [.leaf "x" "float"]) (.un "USub" (.leaf "2" "int"))) = true := by
+  decide +kernel
+example : Accepted Gen.cfg (.call "sin" [.un "USub" (.un "Not" (.bin "Pow" (.un "Not" (.leaf "x" "double")) (.leaf "2" "int")))]) = true := by
+  decide +kernel
+-- `not x` is declared bool, and a bool operand of a table operator is refused (most_accurate_type does not know bool)
+example : (tr Gen.cfg (.un "Not" (.call "log1p" [.leaf "x" "double"]))).toOption.map (·.ty) = some "bool" := by decide +kernel
+example : errOf (tr Gen.cfg (.bin "Add" (.un "Not" (.call "sin" [.leaf "x" "double"])) (.leaf "1" "int"))) = some (.unknownType "bool") := by
   decide +kernel
 -- the refusals are real: an unknown name, a module-less binding, a string in arithmetic
 example : errOf (tr Gen.cfg (.call "frexp" [.leaf "x" "double"])) = some (.unknownCall "frexp") := by decide +kernel
